@@ -189,6 +189,23 @@ def big_grammar(rnd, nt=None, nu=None, square=False):
     return dict(terms=terms, nonterms=nonterms, precs=[], rules=rules, start=0, big=True)
 
 
+def marker_grammar(rnd):
+    """stmt : head opt_1 .. opt_k mark_1 .. mark_j TERM  with optional parts and empty-only markers after a nonterminal:
+    the lookahead of `head -> NAME` is reached through a chain of nullable transitions some of which read nothing themselves."""
+    k, j = rnd.randint(1, 3), rnd.randint(1, 2)
+    names = ['n', 's'] + ['a%d' % i for i in range(k)]
+    parts = ['H'] + ['O%d' % i for i in range(k)] + ['M%d' % i for i in range(j)]
+    rnd.shuffle(parts[1:])
+    spec = 'S: T | S T ; T: %s s ; H: n' % ' '.join(parts)
+    for i in range(k):
+        spec += ' ; O%d: | %s' % (i, rnd.choice(['a%d' % i, 'a%d O%d' % (i, i), 'G%d' % i]))
+        if 'G%d' % i in spec.split(';')[-1]:
+            spec += ' ; G%d: a%d | G%d a%d' % (i, i, i, i)
+    for i in range(j):
+        spec += ' ; M%d: ' % i
+    return from_text(spec)
+
+
 def optional_grammar(rnd):
     """line : opt body ; opt : /* empty, the action does not assign $$ */ | m ; body : a | body a  -- the value of the
     empty alternative is the zero value, whatever an earlier parse left behind."""
@@ -348,6 +365,10 @@ CURATED = {
     'dangling_else': ('S: i S | i S e S | x', ()),
     'nullable_list': ('L: | L x', ()),
     'nullable_chain': ('S: A B C d ; A: | a ; B: | b A ; C: | c B', ()),
+    # a nonterminal followed by an optional part and an empty-only marker (mid-rule action marker): the transition on the optional
+    # part reads no terminal directly, the terminator is read two nullable transitions further on
+    'marker_chain': ('S: T | S T ; T: H O M s ; H: n ; O: | G ; G: i | G i ; M: ', ()),
+    'marker_chain2': ('S: H O P M N s | S x ; H: n ; O: | i ; P: | O j ; M: ; N: ', ()),
     'right_rec': ('L: x | x L', ()),
     'rr_conflict': ('S: A | B ; A: x ; B: x', ()),
     'rr_three': ('S: A | B | C ; A: x ; B: x ; C: x', ()),
